@@ -192,6 +192,11 @@ Collapse(x) ==
 (* omitSpace is saved at <template>/<noscript> and restored at the end tag (6cae351); the two older template
    behaviours are the switches "hidden-leak" (no restore) and "template-os" (675df8b, which predates the restore) *)
 Restore == "hidden-leak" \notin Bugs /\ "template-os" \notin Bugs
+(* afterColgroup: a column group precedes.  63d09b5 looked at an explicit </colgroup> only; since bdcb619 any
+   colgroup or col tag sets it.  On documents written with every tag (all this generator produces) the two agree,
+   so the older behaviour is no wrong-design switch here: it is exercised on the real code by the second-pass
+   inputs and by COLGROUP_OMITTED_DOCS in tools/props/c03.py. *)
+AcAfter(t) == t.t \in {"colgroup", "col"}
 MachineOut(in, o) ==
   LET n == Len(in)
       IsText(j) == j <= n /\ in[j].k = "T"
@@ -242,7 +247,7 @@ MachineOut(in, o) ==
         ELSE LET t == in[j] IN
           CASE t.k = "T" -> IF AllWs(t.x) THEN TL[j + 1] ELSE FALSE
             [] t.k = "M" -> TL[j + 1]
-            [] t.k = "S" -> t.t = "template"
+            [] t.k = "S" -> t.t \in {"template", "col"}                                                        \* bdcb619
             [] OTHER     -> FALSE
       (* look-ahead for </optgroup> *)
       OL[j \in 1..(n + 1)] ==
@@ -276,10 +281,10 @@ MachineOut(in, o) ==
                   [] t.t = "body" -> base /\ ("body-always" \in Bugs \/ ~BL[i + 1])                             \* ba7df1a
                   [] OTHER -> base
           IN IF emptyRaw THEN [s1 EXCEPT !.drop = 1, !.raw = FALSE]
-             ELSE IF superfluous THEN [s1 EXCEPT !.ac = FALSE]
+             ELSE IF superfluous THEN [s1 EXCEPT !.ac = AcAfter(t)]
              ELSE LET os1 == IF o.kws \/ t.t \in MObject THEN FALSE ELSE IF IsMBlock(t.t) THEN TRUE ELSE s1.os
                       os2 == IF t.t \in MNormalOnly /\ i < n /\ in[i + 1].k = "E" /\ in[i + 1].t = t.t THEN FALSE ELSE os1
-                  IN [s1 EXCEPT !.os = os2, !.out = Append(s1.out, t), !.ac = FALSE,
+                  IN [s1 EXCEPT !.os = os2, !.out = Append(s1.out, t), !.ac = AcAfter(t),
                                 !.skip = t.t \in {"select", "optgroup"} /\ IsText(i + 1)]
         ELSE \* end tag
           LET pop == t.t \in {"template", "noscript"} /\ Restore /\ s.hs # <<>>
@@ -289,7 +294,7 @@ MachineOut(in, o) ==
                               !.os = IF t.t = "template" /\ "template-os" \in Bugs THEN TRUE                   \* 675df8b
                                      ELSE IF pop THEN (IF t.t = "template" THEN saved ELSE s.os /\ saved)      \* 6cae351
                                      ELSE s.os,
-                              !.ac = t.t = "colgroup"]                                                          \* 63d09b5
+                              !.ac = AcAfter(t)]                                                                \* 63d09b5 bdcb619
           IN IF (~o.kdoc /\ t.t \in {"html", "head", "body"})
                 \/ (t.t = "colgroup" /\ ("colgroup-always" \in Bugs \/ ~TL[i + 1])) THEN s1
              ELSE LET listed == t.t \in AlwaysOmit \/ ("rt-always" \in Bugs /\ t.t \in {"rt", "rp"})
